@@ -326,8 +326,10 @@ func (r *recorder) Before(c *vunix.Call) {
 		r.checkOwned(c, c.Fd, g)
 		r.checkOwned(c, c.Arg2, g)
 	case "fcntl":
-		if c.Arg == unix.F_DUPFD_CLOEXEC {
-			r.checkOwned(c, c.Fd, g) // Conn.Dup / Engine.Dup duplicate a descriptor the framework owns
+		if c.Arg == unix.F_DUPFD_CLOEXEC && r.poke != "" {
+			// Conn.Dup duplicates the connection's descriptor, which the framework must own (Enroll / Dial / Register
+			// duplicate the CALLER's descriptor: those are not looked at)
+			r.checkOwned(c, c.Fd, g)
 		}
 	}
 	if sf := r.startFault; sf != nil && !r.startFaultHit && c.Name == sf.name && (c.Name != "epoll_ctl" || c.Arg == unix.EPOLL_CTL_ADD) {
